@@ -24,6 +24,11 @@ def relational_to_piecewise(expr: sp.Expr) -> sp.Piecewise:
             (1, expr),
             (0, True),
         )
+    if expr is sp.true:
+        # A relation that sympy could decide, e.g Lt(1, 2)
+        return sp.Integer(1)
+    if expr is sp.false:
+        return sp.Integer(0)
     return expr
 
 
